@@ -47,7 +47,7 @@ REQUIRED = ["transform_calls", "rotations_checked", "scales_checked", "translati
             "centre_root_far", "centre_origin", "root_not_at_position_0", "instance_reused",
             "inverse_checked", "isometry_checked", "builders_checked", "composed_checked",
             "classmethod_checked", "translate_origin_checked", "singular_scalings", "tap_apply",
-            "edited_in_place_then_transformed", "integer_matrices",
+            "edited_in_place_then_transformed", "integer_matrices", "trees_custom_column_names",
             "builder_results_edited_then_rebuilt"]
 FLOOR = {"quick": 1200, "thorough": 150000}
 SHARDS = {"quick": 8, "thorough": 16}
@@ -146,13 +146,27 @@ def default_center(kind):
 
 
 def xyz64(tree):
-    return np.stack([tree.ndata[k] for k in "xyz"], axis=1).astype(np.float64)
+    # through the accessors: a tree read from a table with its own column labels keeps them
+    return np.stack([tree.x(), tree.y(), tree.z()], axis=1).astype(np.float64)
 
 
 def build_tree(rc, reroot):
     from swcgeom.core.tree_utils import redirect_tree
 
     spec = G.spec_from_recipe(rc)
+    if int(rc["seed"]) % 6 == 0 and reroot is None:
+        # a tree read from a table that labels its columns differently (from_data_frame with names)
+        import pandas as pd
+
+        from swcgeom.core import Tree
+        from swcgeom.core.swc import SWCNames
+
+        nm = SWCNames(x="pos_x", y="pos_y", z="pos_z", r="radius")
+        df = pd.DataFrame({"id": np.arange(len(spec["pid"])), "type": spec["type"],
+                           "pos_x": spec["x"], "pos_y": spec["y"], "pos_z": spec["z"],
+                           "radius": spec["r"], "pid": spec["pid"]})
+        G.WARM_STATS["custom_column_names"] = G.WARM_STATS.get("custom_column_names", 0) + 1
+        return Tree.from_data_frame(df, names=nm)
     tree = G.build(spec, frozen_ok=True)
     if reroot is not None and len(spec["pid"]) > 2:
         v = 1 + int(reroot) % (len(spec["pid"]) - 1)
@@ -195,8 +209,9 @@ def _compare(ctx, case, what, tree, out, t, center):
         if np.abs(d0 - d1).max() > 4 * TOL * (1 + scale):
             return ctx.violation("distance-changed", f"{what}: an inter-node distance changed by "
                                                      f"{np.abs(d0 - d1).max():.3g}", case)
+    coord_cols = {tree.names.x, tree.names.y, tree.names.z}
     for k, v in tree.ndata.items():
-        if k in "xyz":
+        if k in coord_cols:
             continue
         w = out.ndata.get(k)
         if w is None or w.dtype != v.dtype or not np.array_equal(w, v):
@@ -245,13 +260,13 @@ def _exec(ctx, case):
                 tf._rv_matrix, tf._rv_matrix_copy):
             return ctx.violation("caller-matrix-mutated", "AffineTransform modified the matrix "
                                                           "array it was constructed with", case)
-        if not all(np.array_equal(again.ndata[k], outs[0].ndata[k]) for k in "xyz"):
+        if not np.array_equal(xyz64(again), xyz64(outs[0])):
             return ctx.violation("call-history-dependence", "applying the same transform to the same "
                                                             "tree again gave different coordinates",
                                  case)
         # the caller edits the first tree in place (node handle / column write) and transforms it
         # again: the stated map applies to the tree as it is *now*
-        if case.get("edit") and len(trees[0]) >= 2 and all(
+        if case.get("edit") and len(trees[0]) >= 2 and trees[0].names.x == "x" and all(
                 trees[0].ndata[k_].flags.writeable for k_ in "xyz"):
             tr = trees[0]
             for (pos, col, val, how) in case["edit"]:
